@@ -31,6 +31,18 @@ CHECKS = {
             "interprocedural may-alias / write-effect analysis (abstract interpretation over ast, summaries to fixpoint) + "
             "clang JSON AST store rule",
             "DESIGN.md section 4 C17"),
+    "C18": (True, "other",
+            "Enumerates statically all state that can outlive a call and decides it carries nothing: instance attributes of "
+            "the xarray-cached accessor classes (wrapped reference / constant / derived, classified by the effect engine), "
+            "memoising decorators, module-level objects and mutable defaults written from any public entry point "
+            "(interprocedural summaries), input mutation (shared with C17), and the C extension's file-scope buffers "
+            "(shape guard must imply both extents equal; buffers overwritten over their full range before first read). "
+            "Two genuine defects on the pinned tree are listed as known findings.",
+            "equality of results across arbitrary histories is not executed; counting-sort permutation in ptsort is an "
+            "assumption; the alias model is the trusted base.",
+            "typestate/ownership lint over ast (effect summaries) + definite-initialisation and guard-implication rules on "
+            "the clang JSON AST",
+            "DESIGN.md section 4 C18"),
 }
 
 NA_DEFAULT = "check under construction in this build round (see DESIGN.md section 8)"
